@@ -155,7 +155,8 @@ pub fn load_findings(path: &str, prop: &str) -> Vec<Finding> {
             .as_array()
             .map(|a| a.iter().filter_map(|x| x.as_str().map(String::from)).collect())
             .unwrap_or_default();
-        if !props.iter().any(|p| p == prop) {
+        // C02 and C03 re-run the other checks' spaces with a reduced oracle: every recorded finding can surface there
+        if !props.iter().any(|p| p == prop) && prop != "C02" && prop != "C03" {
             continue;
         }
         let mut matcher = vec![];
@@ -251,6 +252,8 @@ pub enum Mode {
     Monitor,
     PanicOnly,
 }
+
+static MODE_OVERRIDE_FULL: std::sync::atomic::AtomicBool = std::sync::atomic::AtomicBool::new(false);
 
 const UNMATCHED_CAP: usize = 200;
 
@@ -373,6 +376,16 @@ impl<'e> Out<'e> {
         }
     }
 
+    /// The judging mode in force: the run's mode, or `Full` while a space that carries its own
+    /// complete oracle runs inside an aggregating check (C02 / C03).
+    pub fn mode(&self) -> Mode {
+        if MODE_OVERRIDE_FULL.load(std::sync::atomic::Ordering::Relaxed) {
+            Mode::Full
+        } else {
+            self.env.mode
+        }
+    }
+
     /// Lock-step comparison of one transition. The model says `Ok(m)` or `Err(kind)`; the
     /// implementation outcome must be the same value (per `eq`) or an error of the same kind.
     pub fn lockstep<M: std::fmt::Debug, T: std::fmt::Debug>(
@@ -388,28 +401,28 @@ impl<'e> Out<'e> {
             (_, Oc::Panic(m)) => Some(format!("panic@{}", panic_site(m))),
             (_, Oc::Err(ErrorKind::Assert, _)) => Some("err_kind:Assert".to_string()),
             (Ok(m), Oc::Ok(v)) => {
-                if self.env.mode != Mode::Full || eq(m, v) {
+                if self.mode() != Mode::Full || eq(m, v) {
                     None
                 } else {
                     Some("value≠model".to_string())
                 }
             }
             (Ok(_), Oc::Err(k, _)) => {
-                if self.env.mode == Mode::PanicOnly {
+                if self.mode() == Mode::PanicOnly {
                     None
                 } else {
                     Some(format!("err:{k:?}≠ok"))
                 }
             }
             (Err(k), Oc::Ok(_)) => {
-                if self.env.mode == Mode::PanicOnly {
+                if self.mode() == Mode::PanicOnly {
                     None
                 } else {
                     Some(format!("ok≠err:{k:?}"))
                 }
             }
             (Err(k), Oc::Err(k2, _)) => {
-                if k == k2 || self.env.mode == Mode::PanicOnly {
+                if k == k2 || self.mode() == Mode::PanicOnly {
                     None
                 } else {
                     Some(format!("err_kind:{k2:?}≠{k:?}"))
@@ -435,7 +448,7 @@ impl<'e> Out<'e> {
     /// A law that needs no expected value: `holds` must be true.
     pub fn law(&mut self, name: &str, holds: bool, attrs: impl FnOnce() -> Vec<(&'static str, String)>) -> bool {
         self.transitions += 1;
-        if self.env.mode != Mode::Full {
+        if self.mode() != Mode::Full {
             return true;
         }
         if !holds {
@@ -507,6 +520,10 @@ pub trait Space: Sync {
     }
     fn describe(&self) -> Value {
         json!({})
+    }
+    /// Judge this space with its complete oracle even inside an aggregating check (C02 / C03).
+    fn full_oracle(&self) -> bool {
+        false
     }
 }
 
@@ -590,6 +607,7 @@ impl<'e> Report<'e> {
     pub fn run(&mut self, space: &dyn Space) {
         let name = space.name();
         let len = space.len();
+        MODE_OVERRIDE_FULL.store(space.full_oracle(), std::sync::atomic::Ordering::Relaxed);
         if let Some((rs, ri)) = &self.env.replay {
             if *rs != name {
                 return;
